@@ -213,7 +213,10 @@ class HttpPeer:
                 if ev[0] == "raw":
                     self.raw_in += ev[1]
         if closes:
-            pipe.server_close()
+            if plan.get("close_notify_only"):
+                pipe.server_close(hidden=True)
+            else:
+                pipe.server_close()
 
     def _respond_connect(self, ex):
         pipe = self.pipe
